@@ -69,6 +69,20 @@ Theorem C17_never_early_history : forall tz now ops,
   Forall (fun e => match e with EStart _ t due _ _ => due <= t | _ => True end) (a_events s).
 Proof. exact history_never_early. Qed.
 
+(* without further delay, over EVERY history: no suspended task (sleeping supervisor or running coroutine) is ever
+   overdue for resumption - its wake-up instant is at or after the loop's current instant in every reachable state -
+   ([pending_ok s] = forall id a, In (id, a) (a_jobs s) -> forall w, wake_of a = Some w -> a_now s <= w),
+   so whenever the loop resumes a task it does so exactly AT that task's wake-up instant, which for a sleeping
+   supervisor is max(reference, due) by C17_enter_loop: start_k = max(due_k, end_(k-1)) *)
+Theorem C17_no_delay_step : forall s o s' r,
+  pending_ok s -> a_step s o = (s', r) -> pending_ok s'.
+Proof. exact a_step_pending. Qed.
+Theorem C17_no_delay_history : forall tz now ops,
+  let s := a_steps (a_init tz now) ops in
+  pending_ok s /\
+  (forall id w, earliest (a_jobs s) None = Some (id, w) -> Z.max (a_now s) w = w).
+Proof. exact history_no_delay. Qed.
+
 (* non-vacuity: cyclic 5 s, durations 1 s, 7 s, 0 s: starts at 6, 11, max(16, 18) = 18 *)
 Example C17_example :
   let c := mkCfg CYCLIC [TCyclic 5000000] 3 [] true None None false 1 1 [] [] [] in
@@ -85,3 +99,5 @@ Print Assumptions C17_independent.
 Print Assumptions C17_invariant.
 Print Assumptions C17_never_early_step.
 Print Assumptions C17_never_early_history.
+Print Assumptions C17_no_delay_step.
+Print Assumptions C17_no_delay_history.
